@@ -94,6 +94,28 @@ def rule_c(R, ctx):
                         bad.append("an alternative ignores `start` on a path not restricted to start == 0: %s" % sshow(at, 6))
             R.ob("C13.c", fn, site + "#arg%d" % k, not bad, "; ".join(bad) if bad else "written value = %s" % sshow(t, 6), cs.loc())
     R.floor("C13.c", "encoder writes in splittable arms of encode_slice", n, 6)
+    # units: slice bounds are clocks, and the clock unit of string content is the UTF-16 code unit
+    for cs in fn.calls_to(*WRITE_CALLS):
+        g = v.guards(cs.bb)
+        if not any(simp(l.term)[0] == "param" and simp(l.term)[1] == 1 and l.polarity == "String" for l in g):
+            continue
+        t = v.arg(cs, 1, 24)
+        cuts = {"start": False, "end": False}
+        other = []
+        for x in walk(t):
+            if x[0] == "call" and F.strip_generics(x[1]).endswith("split_str") and len(x[2]) == 3:
+                kind = simp_deep(x[2][2])
+                utf16 = (kind[0] == "agg" and kind[1].endswith("OffsetKind::Utf16")) or (kind[0] == "const" and "Utf16" in str(kind))
+                for nm, loc in (("start", START), ("end", END)):
+                    if mentions(x[2][1], loc):
+                        if utf16:
+                            cuts[nm] = True
+                        else:
+                            other.append("%s cut in %s" % (nm, sshow(kind)))
+        R.ob("C13.c", fn, "String:units", cuts["start"] and cuts["end"] and not other,
+             "both bounds of a string slice are applied with split_str(.., OffsetKind::Utf16)" if cuts["start"] and cuts["end"] and not other else
+             "a bound of the string slice is not applied in UTF-16 code units (the clock unit): start via split_str/Utf16=%s, end via "
+             "split_str/Utf16=%s %s — text with surrogate pairs is cut at the wrong place" % (cuts["start"], cuts["end"], other), cs.loc())
 
 
 def check(ctx, R):
